@@ -49,7 +49,7 @@ ASSUMPTIONS = [
     "canonical form skips only the declared metadata of vlib.canon.SKIP",
     "Project.run_optimization is dead code (optim_ins.make no longer exists) and is out of scope",
 ]
-BUDGET = {"quick": 480, "thorough": 32000}
+BUDGET = {"quick": 480, "thorough": 24000}
 TIME_CAP = {"quick": 65, "thorough": 1150}
 TOL = 1e-9
 INF = math.inf
@@ -268,7 +268,7 @@ def calibrate_cases(draw, kind, fault_iters=6):
     case = {"kind": kind, "model": model, "settings": s, "adj": adj, "y0": y0, "meas": meas, "targets": targets, "randseed": draw(st.integers(0, 2**31 - 1))}
     if kind == "calibrate-fault":
         case["budget"] = {"maxiters": draw(st.integers(1, fault_iters))}
-    elif _one_in(draw, 8):
+    elif _one_in(draw, 5):
         case["budget"] = {"max_time": draw(st.sampled_from([0.0, 0.01, 0.05]))}
     else:
         case["budget"] = {"maxiters": draw(st.sampled_from([1, 2, 3, 5, 8, 12, 12, 18, 18, 25, 25, 25]))}
